@@ -17,6 +17,9 @@ import sys
 import tempfile
 import time
 
+sys.path.insert(0, os.path.dirname(os.path.abspath(__file__)))
+import buildlib  # noqa: E402
+
 ROOT = os.path.dirname(os.path.dirname(os.path.abspath(__file__)))
 LEAN = os.path.join(ROOT, "lean")
 PY = "/venv/bin/python" if os.path.exists("/venv/bin/python") else sys.executable
@@ -106,8 +109,7 @@ def main(argv):
             if m and (m.group(1) in spec.get("gen_units", []) or not spec.get("gen_units")):
                 breaks.append(("T", f"Gen.{m.group(1)}: {m.group(2)}"))
         log.append(("gen", rc, out[-2000:]))
-        _, doms_out = sh([sys.executable, os.path.join(ROOT, "tools", "mkdriver.py")], timeout=60)
-        domains = dict(x.split(":") for x in doms_out.split())
+        domains = buildlib.mkdriver()
         # ---------------------------------------------------------------- audit file
         names = [t["name"] for t in spec["theorems"]]
         audit_rel = os.path.join("SecsModel", "Audit", f"{prop}.lean")
@@ -135,16 +137,10 @@ def main(argv):
             if not broken_thms:
                 broken_thms.append("lake build failed: " + out_p[-400:])
             breaks.append(("P", "; ".join(broken_thms[:6])))
-        rc_d, out_d = sh(["lake", "build", "driver"], cwd=LEAN, timeout=3000)
-        if rc_d != 0:
-            # leave out the domains whose model no longer builds; only this property's own domains count against it
-            bad = [w for w, mod in domains.items() if sh(["lake", "build", f"SecsModel.Drv.{mod}"], cwd=LEAN, timeout=3000)[0] != 0]
-            sh([sys.executable, os.path.join(ROOT, "tools", "mkdriver.py")] + bad, timeout=60)
-            rc_d2, out_d2 = sh(["lake", "build", "driver"], cwd=LEAN, timeout=3000)
-            mine = [w for w in bad if w in spec.get("driver_domains", [])]
-            if mine or rc_d2 != 0:
-                errs = re.findall(r"error: (\S+\.lean:\d+:\d+: .*)", out_d)
-                breaks.append(("P", f"model driver domain(s) {mine or bad} do not build: " + "; ".join(e[:160] for e in errs[:4])))
+        ok_d, _, bad, errs_d = buildlib.build_driver()
+        mine = [w for w in bad if w in spec.get("driver_domains", [])]
+        if mine or not ok_d:
+            breaks.append(("P", f"model driver domain(s) {mine or bad} do not build: {errs_d}"))
         log.append(("build", rc_p, out_p[-3000:]))
         # ---------------------------------------------------------------- A
         axioms = {}
